@@ -152,6 +152,18 @@ def r17_3(ctx):
                 ctx.ob("R17.3", "whole-text-shortcut-tests-every-escaped-character", not missing,
                        "the shortcut is taken only when none of %s occurs" % sorted(need) if not missing else
                        "write_to_buf_escaped writes the whole text unescaped when none of %s occurs, but the table also escapes %s" % (sorted(lits), missing), "xml5ever serialize write_to_buf_escaped")
+    # which value of the mode parameter makes write_to_buf_escaped escape the double quote: read from its own normal form
+    key, epcs = nfq.cells(ctx, AREA, "serialize::write_to_buf_escaped")
+    attr_arg = set()
+    for pc in nfq.feasible(epcs):
+        if any(x.endswith(".write_all([38, 113, 117, 111, 116, 59])") for x in nfq.texts(pc)):  # writes &quot;
+            for g, v in pc["guards"].items():
+                m = re.fullmatch(r"p3( matches (\w+))?(#\d+)?", g)
+                if m:
+                    attr_arg.add((m.group(2) or ("true" if v else "false")) if (v or not m.group(2)) else "not " + m.group(2))
+    if len(attr_arg) != 1:
+        raise AnchorMissing("write_to_buf_escaped: the mode under which '\"' is escaped is not a single value of its third parameter (%s)" % sorted(attr_arg))
+    attr_arg = next(iter(attr_arg))
     # everything written inside a quoted attribute-like context is escaped
     key, pcs = nfq.cells(ctx, AREA, "[Serializer]::start_elem")
     bad = None
@@ -169,7 +181,7 @@ def r17_3(ctx):
                 continue
             if inq and x.startswith("self.writer.write_all("):
                 bad = x
-            if inq and x.startswith("call write_to_buf_escaped(") and not x.endswith(",true)"):
+            if inq and x.startswith("call write_to_buf_escaped(") and not x.endswith(",%s)" % attr_arg):
                 bad = x
     ctx.floor("R17.3", "quoted-contexts", n, 2)
     ctx.ob("R17.3", "quoted-context-always-escaped", bad is None,
